@@ -32,7 +32,7 @@ import re
 import types
 from typing import Any, Optional
 
-from .. import core, pyz
+from .. import c13_context, c13_shapes, core, pyz
 from ..annot_codec import (
     CodecError,
     V,
@@ -64,6 +64,9 @@ class P(Protocol):
 T = TypeVar("T")
 TB = TypeVar("TB", bound=int)
 TC = TypeVar("TC", int, str)
+D = 1                                   # defaults that are not literals: a module constant, a call, (a lambda)
+def mk() -> int:
+    return 1
 '''
 FUTURE = "from __future__ import annotations\n"
 
@@ -361,7 +364,7 @@ def render_header(h: dict) -> str:
         if a is not None:
             text += ": " + a
         if p["dflt"] != "none":
-            d = {"int:1": "1", "None": "None", "...": "..."}[p["dflt"]]
+            d = {"int:1": "1", "None": "None", "...": "...", "name": "D", "call": "mk()", "lambda": "lambda: 1"}[p["dflt"]]
             text += (" = " if a is not None else "=") + d
         parts.append(text)
         if kind == "POSITIONAL_ONLY" and (i + 1 == len(params) or kinds[i + 1] != "POSITIONAL_ONLY"):
@@ -575,10 +578,216 @@ def judge_headers(check: core.Check, cases: list[dict], label: str, cfg: str = "
     return counts
 
 
-def _sensitivity(module: str, cfg: str, inv: str) -> None:
-    r = _tlc(module, cfg, timeout=900, workers=4)
+# --------------------------------------------------------------------------- part C: evaluation context and sharing
+
+
+def _context_batches(cases: list[dict], per_batch: int = 42) -> list[tuple[int, list[dict]]]:
+    """Whole worlds per batch (the twin world without history is built once per world of a batch)."""
+    by_world: dict[str, list[dict]] = {}
+    for c in cases:
+        by_world.setdefault(c13_context.world_key(c["w"]), []).append(c)
+    batches: list[tuple[int, list[dict]]] = []
+    cur: list[dict] = []
+    base = 0
+    for k in sorted(by_world):
+        cur.extend(by_world[k])
+        if len(cur) >= per_batch:
+            batches.append((base, cur))
+            base += len(cur)
+            cur = []
+    if cur:
+        batches.append((base, cur))
+    return batches
+
+
+def judge_context(check: core.Check, cases: list[dict], label: str) -> dict[str, int]:
+    t0 = time.time()
+    parts = core.pmap(c13_context.observe_context, _context_batches(cases), chunk=1)
+    obs = _flatten(parts)
+    t1 = time.time()
+    verdicts, stats = _adjudicate("AnnotationContextTrace", "AnnotationContextTrace.cfg", obs, batch=250, parallel=8, timeout=3000)
+    check.cov.setdefault("timing", []).append({"what": "context:" + label, "observe_s": round(t1 - t0, 1), "adjudicate_s": round(time.time() - t1, 1)})
+    check.add_trace_stats(stats)
+    counts = {"cases": len(obs), "with_history": 0, "foreign_cell": 0, "undefined_reference": 0, "call_rejected_for_other_class": 0}
+    for o in obs:
+        check.evals(2 * 6 + 2 * 4)          # both modules: 4 routes + 2 calls after the history, 4 routes in the twin world
+        if o["hist"]:
+            counts["with_history"] += 1
+        foreign = any(o["cells"][m][k] not in ("nocell", "none", m) for m in ("A", "B") for k in ("obj", "cache"))
+        if foreign:
+            counts["foreign_cell"] += 1
+            # non-trivial = the situation the property is about really arose: some ForwardRef reachable from a module's
+            # declaration carries the OTHER module's class when pyanalyze looks at it
+            check.nontrivial("ctx|" + core.canon({"w": o["w"], "hist": o["hist"]}))
+        if "undefined" in o["truth"].values():
+            counts["undefined_reference"] += 1
+        counts["call_rejected_for_other_class"] += sum(1 for m in ("A", "B") if o["obs"][m]["callother"])
+        seen: set[str] = set()
+        for v in verdicts.get(o["tid"], []):
+            if v in seen:
+                continue
+            seen.add(v)
+            payload = {"kind": "context", "w": o["w"], "hist": o["hist"], "sources": c13_context.source_of(o),
+                       "observed": {k: o[k] for k in ("py", "truth", "cells", "obs", "base")}, "source": label}
+            if v.startswith("oracle:"):
+                raise core.MachineryError(f"{v} on world {o['w']} history {o['hist']}: py={o['py']} truth={o['truth']} cells={o['cells']}")
+            if v.startswith("viol:"):
+                check.violation(core.canon({"w": o["w"], "hist": o["hist"], "clause": v[5:]}), v[5:], payload)
+            elif v.startswith("dev:"):
+                check.violation(v[4:], v[4:], payload)
+            elif v.startswith("drift:"):
+                check.drift({"verdict": v, "w": o["w"], "hist": o["hist"], "observed": o["obs"], "base": o["base"]})
+    for o in obs[:: max(1, len(obs) // 2)][:2]:
+        check.sample({"source": "context:" + label, **o})
+    return counts
+
+
+def run_context(check: core.Check, quick: bool, rnd: random.Random) -> None:
+    """spec/AnnotationContext.tla: model check all worlds x histories, replay them through the real code."""
+    # vacuity is controlled without -coverage (which slows this run down 4x): the NeverForeignCell cfg must be violated
+    # (some history leaves the other module's class on a shared ForwardRef) and the replay must really meet such cells
+    res = core.require_ok(_tlc("AnnotationContextEmit", "AnnotationContext.quick.cfg", timeout=1800), "AnnotationContext exhaustive")
+    check.add_tlc("exhaustive+emit:AnnotationContext.quick.cfg", res)
+    cases = core.emitted_json(res)
+    if not cases:
+        raise core.MachineryError("TLC emitted no context cases")
+    check.cov["model_cases_context"] = len(cases)
+    if quick:
+        # every world with every history of length <= 1, and a seeded sample of the two-step histories
+        short = [c for c in cases if len(c["hist"]) <= 1]
+        rest = [c for c in cases if len(c["hist"]) > 1]
+        chosen = short + rnd.sample(rest, min(len(rest), 1000))
+        exhaustive = len(chosen) == len(cases)
+    else:
+        allp = core.require_ok(_tlc("AnnotationContextEmit", "AnnotationContext.thorough.cfg", timeout=3000), "AnnotationContext all pairs")
+        check.add_tlc("exhaustive+emit:AnnotationContext.thorough.cfg", allp)
+        more = core.emitted_json(allp)
+        check.cov["model_cases_context_all_pairs"] = len(more)
+        have = {core.canon(c) for c in cases}
+        more = [c for c in more if core.canon(c) not in have]
+        chosen = cases + rnd.sample(more, min(len(more), 12000))
+        exhaustive = True       # of the related-pairs bound; the all-pairs bound is model checked and sampled
+    counts = judge_context(check, chosen, "tlc-exhaustive")
+    if counts["foreign_cell"] == 0:
+        raise core.MachineryError("context slice is vacuous: no replayed history left a foreign class on a shared ForwardRef")
+    check.cov.setdefault("replay", {})["context"] = {**counts, "replay_is_exhaustive": exhaustive}
+    check.cov["context_replay_is_exhaustive"] = exhaustive
+
+
+# --------------------------------------------------------------------------- part D: shapes of definition
+
+
+def _strip_shape_obs(o: dict) -> dict:
+    return {k: v for k, v in o.items() if k != "src"}
+
+
+def judge_shapes(check: core.Check, cases: list[dict], label: str) -> dict[str, int]:
+    t0 = time.time()
+    parts = core.pmap(c13_shapes.observe_shapes, _batches(cases, 8), chunk=1)
+    obs = _flatten(parts)
+    t1 = time.time()
+    verdicts, stats = _adjudicate("DefShapesTrace", "DefShapesTrace.cfg", [_strip_shape_obs(o) for o in obs], batch=40, parallel=8, timeout=3000)
+    check.cov.setdefault("timing", []).append({"what": "shapes:" + label, "observe_s": round(t1 - t0, 1), "adjudicate_s": round(time.time() - t1, 1)})
+    check.add_trace_stats(stats)
+    counts: dict[str, int] = {"cases": len(obs), "calls": 0, "dev": 0}
+    for o in obs:
+        shape = o["c"]["shape"]
+        counts[shape] = counts.get(shape, 0) + 1
+        counts["calls"] += len(o["calls"])
+        check.evals(3 + len(o["calls"]) * (4 if shape in c13_shapes.METHOD_SHAPES else 3))
+        check.nontrivial("shape|" + o["src"])       # every shape case is a decorated / bound / generator definition
+        seen: set[str] = set()
+        for v in verdicts.get(o["tid"], []):
+            if v in seen:
+                continue
+            seen.add(v)
+            payload = {"kind": "shape", "h": o["c"]["h"], "shape": shape, "src": o["src"],
+                       "calls": [{k: c[k] for k in ("npos", "kws", "bad")} for c in o["calls"]],
+                       "observed": {k: v2 for k, v2 in o.items() if k not in ("tid", "c", "calls", "src")}, "source": label}
+            if v.startswith("oracle:"):
+                raise core.MachineryError(f"{v} on shape case {o['src']}: {payload['observed']}")
+            if v.startswith("viol:"):
+                clause, _, k = v[5:].partition("#")
+                if k:
+                    payload["call"] = o["calls"][int(k) - 1]
+                check.violation(core.canon({"h": o["c"]["h"], "shape": shape, "clause": v[5:]}), clause, payload)
+            elif v.startswith("dev:"):
+                counts["dev"] += 1
+                check.violation(v[4:], v[4:], payload)
+            elif v.startswith("drift:"):
+                check.drift({"verdict": v, "src": o["src"], "observed": o.get(v[6:])})
+    for o in obs[:: max(1, len(obs) // 2)][:2]:
+        s = dict(o)
+        s["calls"] = s["calls"][:3]
+        check.sample({"source": "shapes:" + label, **s})
+    return counts
+
+
+def run_shapes(check: core.Check, quick: bool, rnd: random.Random) -> None:
+    """spec/DefShapes.tla (methods, wrappers, retyping decorators, generators) and the plain headers with defaults that
+    are not literals (DefHeaders.nonlit*.cfg)."""
+    cfg = "DefShapes.quick.cfg" if quick else "DefShapes.thorough.cfg"
+    res = core.require_ok(_tlc("DefShapesEmit", cfg, coverage=quick, timeout=3000), "DefShapes exhaustive")
+    if quick:
+        core.require_coverage(res, ["AddParam", "FinishHeaderS", "ChooseShape"], "DefShapes")
+    check.add_tlc("exhaustive+emit:" + cfg, res)
+    cases = core.emitted_json(res)
+    if not cases:
+        raise core.MachineryError("TLC emitted no shape cases")
+    check.cov["model_cases_shapes"] = len(cases)
+    limit = 240 if quick else 2400
+    exhaustive = len(cases) <= limit
+    if not exhaustive:
+        # stratified by shape: the same number of cases of every shape (all of a shape that has fewer)
+        by: dict[str, list[dict]] = {}
+        for c in cases:
+            by.setdefault(c["shape"], []).append(c)
+        per = max(1, limit // len(by))
+        cases = [c for k in sorted(by) for c in (by[k] if len(by[k]) <= per else rnd.sample(by[k], per))]
+    counts = judge_shapes(check, cases, "tlc-exhaustive")
+    ncfg = "DefHeaders.nonlit.cfg" if quick else "DefHeaders.nonlitt.cfg"
+    nres = core.require_ok(_tlc("DefHeadersEmit", ncfg, timeout=3000), "DefHeaders non-literal defaults")
+    check.add_tlc("exhaustive+emit:" + ncfg, nres)
+    ncases = core.emitted_json(nres)
+    if not ncases:
+        raise core.MachineryError("TLC emitted no headers with non-literal defaults")
+    nlimit = 120 if quick else 1200
+    nexh = len(ncases) <= nlimit
+    if not nexh:
+        ncases = rnd.sample(ncases, nlimit)
+    ncounts = judge_headers(check, ncases, "tlc-exhaustive-nonliteral-defaults", "DefHeadersTrace.cfg")
+    check.cov.setdefault("replay", {}).update({"shapes": {**counts, "replay_is_exhaustive": exhaustive},
+                                               "headers_nonliteral_defaults": {**ncounts, "replay_is_exhaustive": nexh}})
+    check.cov["shapes_replay_is_exhaustive"] = exhaustive and nexh
+
+
+_sens_pool = None
+_sens_jobs: list = []
+
+
+def _sensitivity_now(module: str, cfg: str, inv: str) -> None:
+    r = _tlc(module, cfg, timeout=900, workers=2)
     if r.violated != inv:
         raise core.MachineryError(f"sensitivity self-test failed: {module}/{cfg} should violate {inv}, got {r.violated or r.error}")
+
+
+def _sensitivity(module: str, cfg: str, inv: str) -> None:
+    """Sensitivity self-tests are independent small TLC runs: they are started in the background (two at a time) and
+    joined by _sensitivity_join() at the end of run(); a failing one is a MachineryError there."""
+    global _sens_pool
+    from concurrent.futures import ThreadPoolExecutor
+
+    if _sens_pool is None:
+        _sens_pool = ThreadPoolExecutor(2)
+    _sens_jobs.append(_sens_pool.submit(_sensitivity_now, module, cfg, inv))
+
+
+def _sensitivity_join() -> int:
+    n = 0
+    while _sens_jobs:
+        _sens_jobs.pop(0).result()
+        n += 1
+    return n
 
 
 def _uniq(cases: list) -> list:
@@ -644,6 +853,12 @@ def run(check: core.Check) -> None:
     if len(sim_cases) < num // 4:
         raise core.MachineryError(f"annotation simulation produced only {len(sim_cases)} distinct cases")
     cs = judge_annotations(check, sim_cases, "tlc-simulate")
+    # ---------------- part C: evaluation context and sharing (two modules, histories)
+    _sensitivity("AnnotationContext", "AnnotationContext.bugcached.cfg", "CtxIndependent")
+    _sensitivity("AnnotationContext", "AnnotationContext.bugcached2.cfg", "CtxDeclaringModule")
+    _sensitivity("AnnotationContext", "AnnotationContext.bugfallback.cfg", "CtxDeclaringModule")
+    _sensitivity("AnnotationContext", "AnnotationContext.foreign.cfg", "NeverForeignCell")
+    run_context(check, quick, rnd)
     # ---------------- part B: def headers
     hcfg = "DefHeaders.quick.cfg" if quick else "DefHeaders.thorough.cfg"
     if not quick:
@@ -681,11 +896,18 @@ def run(check: core.Check) -> None:
     if len(hsim_cases) < hnum // 4:
         raise core.MachineryError(f"header simulation produced only {len(hsim_cases)} distinct cases")
     chs = judge_headers(check, hsim_cases, "tlc-simulate", "DefHeadersTraceBig.cfg")
-    check.cov["exhaustive"] = exhaustive_a and exhaustive_h
-    check.cov["replay"] = {
+    # ---------------- part D: shapes of definition, defaults that are not literals
+    _sensitivity("DefShapes", "DefShapes.strict.cfg", "ShapeViewsAgreeStrict")
+    _sensitivity("DefShapes", "DefShapes.bugbound.cfg", "ShapeViewsAgree")
+    _sensitivity("DefShapes", "DefShapes.bugasyncgen.cfg", "ShapeViewsAgree")
+    _sensitivity("DefHeaders", "DefHeaders.defaultsequal.cfg", "HeaderDefaultsEqual")
+    run_shapes(check, quick, rnd)
+    check.cov["sensitivity_runs"] = _sensitivity_join()
+    check.cov["exhaustive"] = exhaustive_a and exhaustive_h and bool(check.cov.get("context_replay_is_exhaustive"))
+    check.cov.setdefault("replay", {}).update({
         "annotations_exhaustive": ca, "annotations_simulated": cs, "headers_exhaustive": ch, "headers_simulated": chs,
         "annotation_replay_is_exhaustive": exhaustive_a, "header_replay_is_exhaustive": exhaustive_h,
-    }
+    })
     check.cov["sensitivity"] = (
         "AnnotationRoutesAgreeStrict / HeaderViewsAgreeStrict are violated on the model (the named deviations are real); "
         "with BugOptionalDropsNone (string route forgets None in Optional[X]), BugBuiltinsFirst (names in string annotations "
@@ -709,7 +931,11 @@ def _size(e: dict) -> int:
 
 
 def replay(check: core.Check, witness: dict) -> None:
-    if witness.get("kind") == "header":
+    if witness.get("kind") == "context":
+        judge_context(check, [{"w": witness["w"], "hist": witness["hist"]}], "replay")
+    elif witness.get("kind") == "shape":
+        judge_shapes(check, [{"h": witness["h"], "shape": witness["shape"], "calls": witness["calls"]}], "replay")
+    elif witness.get("kind") == "header":
         big = any(c["npos"] > 2 or len(c["kws"]) > 1 for c in witness["calls"])
         judge_headers(check, [{"h": witness["h"], "calls": witness["calls"]}], "replay",
                       "DefHeadersTraceBig.cfg" if big else "DefHeadersTrace.cfg")
